@@ -459,6 +459,7 @@ fn unify(template: &Ty, actual: &Ty, subst: &mut Subst) -> Result<(), String> {
             unify(le, re, subst)
         }
         (Ty::TRef { elem: le }, Ty::TRef { elem: re }) => unify(le, re, subst),
+        (Ty::TVec { elem: le }, Ty::TVec { elem: re }) => unify(le, re, subst),
         (
             Ty::TFunc {
                 params: lp,
@@ -956,6 +957,9 @@ impl<'a> TypeMono<'a> {
                 elem: Box::new(self.collapse_type_apps(elem)),
             },
             Ty::TRef { elem } => Ty::TRef {
+                elem: Box::new(self.collapse_type_apps(elem)),
+            },
+            Ty::TVec { elem } => Ty::TVec {
                 elem: Box::new(self.collapse_type_apps(elem)),
             },
             _ => ty.clone(),
